@@ -160,6 +160,7 @@ def main(argv=None):
     os.environ['PYVC_KNOWN'] = json.dumps([f['id'] for f in kf.get('findings', [])])
     reg = load_contracts()
     from pyvc import ground
+    import bounded.strings  # noqa: F401  (registers the bounded stand-ins)
     quals = [q for q, c in reg.contracts.items() if pid in c.serves and not c.external]
     grounds = [g for g in ground.CHECKS if pid in ground.CHECKS[g].serves]
     timeout_ms = 20000 if tier == 'quick' else 60000
@@ -225,8 +226,12 @@ def main(argv=None):
         fn['kind'] = r.get('kind', 'function')
         functions.append(fn)
 
+    # bounded stand-ins (enumerated small scope on the real function) are reported separately and are
+    # never counted as proved obligations
+    bounded_obls = [o for o in obligations if (o.get('backend') or '').startswith('bounded')]
+    obligations = [o for o in obligations if not (o.get('backend') or '').startswith('bounded')]
     proved = [o for o in obligations if o['verdict'] == 'proved']
-    refuted = [o for o in obligations if o['verdict'] == 'refuted']
+    refuted = [o for o in obligations + bounded_obls if o['verdict'] == 'refuted']
     unknown = [o for o in obligations if o['verdict'] not in ('proved', 'refuted')]
     for o in unknown:
         undecided.append('%s: solver %s (%s)' % (o['name'], o['verdict'], (o.get('info') or {}).get('reason')))
@@ -251,14 +256,22 @@ def main(argv=None):
         if o['name'] in covered or o['name'] in reported:
             continue
         reported.add(o['name'])
-        path, res = run_replay(pid, o)
+        if (o.get('backend') or '') in ('bounded enumeration', 'enumeration', 'AST scan', 'inspection') and o.get('model'):
+            # the enumeration's own witness IS a concrete failing input on the real function
+            os.makedirs(os.path.join(VERIF, 'replays', pid), exist_ok=True)
+            path = os.path.join(VERIF, 'replays', pid, sanitize(o['name']) + '.json')
+            res = dict(found=True, input=o['model'], note='witness of the exhaustive enumeration, evaluated on the real function')
+            json.dump(dict(property=pid, obligation=o['name'], verdict='refuted', checker=o.get('backend'), replay=res), open(path, 'w'), indent=1, default=str)
+        else:
+            path, res = run_replay(pid, o)
         rel = os.path.relpath(path, VERIF)
         tail = '' if res.get('found') else ' no-failing-input-found'
         violations.append((o, rel, res))
         lines.append('VIOLATION property=%s replay=%s obligation=%s%s' % (pid, rel, o['name'], tail))
 
     wall = time.time() - t0
-    bounded = []
+    bounded = [dict(name=o['name'], verdict='held on every enumerated case' if o['verdict'] == 'proved' else 'FAILED', method=o.get('backend'))
+               for o in bounded_obls]
     ev = dict(
         property_id=pid, tier=tier, seed=seed, level='proof',
         coverage=dict(
